@@ -99,9 +99,10 @@ def directed():
         out.append([
             dict(B, kind='step', name='t1', ins=[F('d1')]),
             dict(B, kind='copy', name='t2', ins=[T('t1')], mode=mode),
+            dict(B, kind='copy', name='t6', ins=[F('s3')], xdeps=['t1']),
             dict(B, kind='step', name='t3', ins=[T('t2')]),
             dict(B, kind='exe', name='t4', srcs=[F('s1')], xdeps=['t2']),
-            dict(B, kind='default', name='t5', deps=['t3', 't4'])])
+            dict(B, kind='default', name='t5', deps=['t3', 't4', 't6'])])
     # always-outdated steps with one and with two outputs, and their consumers
     for nouts in (1, 2):
         out.append([
